@@ -115,7 +115,7 @@ def groups(tier, rng):
     return [Group("accept2/two-listeners-close-error", two, project=project, theorems=THEOREMS),
             Group("accept/outcome-sequences", acc, exhaustive=(tier == "thorough"), project=project, theorems=THEOREMS, monitor=False),
             Group("accept/hanging-connections", hang, project=project, theorems=THEOREMS, monitor=False),
-            Group("lateserve/serve-after-the-end", ["lateserve\t%s\t%s" % (e, o) for e in ("close", "shutdown") for o in ("after", "race", "fromlogout")
+            Group("lateserve/serve-after-the-end", ["lateserve\tquit\tfromlogout"] + ["lateserve\t%s\t%s" % (e, o) for e in ("close", "shutdown") for o in ("after", "race", "fromlogout")
                                                        for _ in range(2 if tier == "quick" else 20)], project=lambda c, a: a, theorems=THEOREMS),
             Group("multi/connections-of-one-server", multi_cases(tier, rng), project=lambda c, a: a.split("\t")[0], theorems=THEOREMS, monitor=False),
             Group("sched/delivery-orders", sched_cases(tier, rng), project=project, theorems=THEOREMS, monitor=False),
